@@ -78,6 +78,7 @@ class AbsInt:
         self.visits = {}
         self.notes = []
         self.callrets = {}
+        self.ret_cases = []
 
     # ------------------------------------------------------------ types
     def ty(self, tid):
@@ -158,6 +159,9 @@ class AbsInt:
             _, op, x, y = b
             if op == "const":
                 return x
+            if op == "implied":
+                # "the value is good ONLY IF x": false x means not good; true x says nothing
+                return False if self.tri(st, x) is False else None
             if op == "not":
                 r = self.tri(st, x)
                 return None if r is None else (not r)
@@ -191,6 +195,8 @@ class AbsInt:
         _, op, x, y = b
         if op == "const":
             return x == truth
+        if op == "implied":
+            return self.refine(st, x, True) if truth else True
         if op == "not":
             return self.refine(st, x, not truth)
         if op == "and":
@@ -333,6 +339,15 @@ class AbsInt:
     def write_place(self, st, pl, v):
         if not pl["p"]:
             st.vals[pl["l"]] = v
+            if pl["l"] == 0 and isinstance(v, tuple) and v and v[0] == "o":
+                # a return value is being produced here: remember under which argument values (for Host.implied)
+                good = self.tri(st, v[3]) if v[3] is not None else None
+                pi = {}
+                for i in range(1, self.body["argc"] + 1):
+                    for key in (("p", i), ("p", i, "len")):
+                        if key in self.symrange:
+                            pi[key] = self.sym_iv(st, key)
+                self.ret_cases.append((good, pi))
             return
         if pl["p"] == ["*"]:
             p = st.vals.get(pl["l"])
